@@ -43,10 +43,16 @@ CHECKS = {
     'C14': dict(ready=True, technique='TLC breadth-first search of the specification dynamics from all states of Init_<f>(p) and from logged initial states (MC_Win); plans replayed on the real step function',
                 text='For small members of every reset family TLC searches from every state of the generative set; for all 21 shipped configurations from initial states produced by the real reset functions over seeds. Every plan found for a logged origin is replayed on the real transition and termination functions; an origin without a plan is re-searched on the real step function before it is reported and matched against the listed known finding (F8).',
                 note='random outcomes are part of the existential; search depth bounded (60/120 actions); memory_rooms small members use fixed colours/orientation'),
-    'C15': dict(ready=False, technique='', text='', note=''),
-    'C16': dict(ready=False, technique='', text='', note=''),
+    'C15': dict(ready=True, technique='TLC model checking over all type/colour subsets (MC_Rep) + TLC trace validation of declared spaces and converted members (Trace_Rep)',
+                text='MC_Rep checks on the specification that every encoding of every object of every space (all subsets of registered types x colour subsets x 3 encodings x state/observation) lies within the declared bounds; the real make_*_representation spaces (and the gym Dict/Box built from them) are compared with the specification and convert() of covering and random members, and of every state/observation along trajectories of all shipped configurations, is checked for shape, dtype kind, bounds and contains().',
+                note='quick tier samples 150 spaces per kind plus all shipped ones (thorough: all); float entries compared as exact rationals'),
+    'C16': dict(ready=True, technique='TLC model checking of injectivity / disjoint channels / consecutive compact values (MC_Rep) + TLC trace validation of per-member encodings and pairs (Trace_Rep)',
+                text='On the specification: injectivity of the three encodings on all objects of all spaces, default = index triple, disjoint channel ranges for no-overlap, consecutive values from zero for compact. On the code: every converted array equals the positional encoding of the specification (agent marker exactly at the agent cell), and for pairs of members equal arrays <=> equal members <=> python ==, with equal hashes.',
+                note='box content is not part of equality (as in the library); quick tier samples spaces'),
     'C17': dict(ready=False, technique='', text='', note=''),
-    'C18': dict(ready=False, technique='', text='', note=''),
+    'C18': dict(ready=True, technique='TLAPS proofs over Int (GVGeometryProofs, 64 obligations) + TLC model checking (MC_Geom) + TLC trace validation of every geometry operator of the code (Trace_Geom)',
+                text='The group, action, isometry, transform and area laws are proved with TLAPS for all integers on the specification; the finite-set statements and grid rotation laws are model-checked for small coordinates/shapes; every public operator of geometry.py, Grid rotation, get_next_position and get_manhattan_boundary is run on the exhaustive small domain and on random coordinates up to 2^29 and each result is compared by TLC with the specification operator.',
+                note='proofs are about the specification; the code is bound to it by conformance (exhaustive small + random large), which is sound because the operators branch on the orientation only'),
     'C19': dict(ready=True, technique='TLC trace validation of logged rays (Trace_Rays, GVRays) + GVCache model behaviours replayed on the real lru caches',
                 text='Every ray of compute_rays_fancy, compute_rays and compute_ray (random directions) for all areas up to 5x5 (9x9 thorough) plus the shipped 7x7 and asymmetric areas and all origins is checked by TLC (start, containment, no repeats, 8-adjacency, ends on border, coverage); hit/miss/eviction histories generated from the GVCache model are replayed on the real cached function comparing answers and counters.',
                 note='the floating-point stepping is not modelled (postcondition check on logged rays)'),
